@@ -22,6 +22,12 @@ type Clause struct {
 	Line  int
 }
 
+type Immutable struct {
+	Type   string
+	Pkg    string
+	Except []string
+}
+
 type LoopSpec struct {
 	K          int
 	Invariants []Clause
@@ -107,6 +113,7 @@ type SpecDB struct {
 	SortDecls map[string][][2]string // every declaration of each alias (clash check after loading)
 	Ghosts    map[string][2]string // ghost variable -> (sort name, package path)
 	GhostVia  map[string]string    // ghost variable -> Go type whose holders may change it
+	Immutables []Immutable
 	Guards    []*Guard
 }
 
@@ -214,6 +221,22 @@ func (db *SpecDB) LoadContractFile(path, defaultPkg string) error {
 				return fail(l.n, "bad ghost declaration %q", rest)
 			}
 			db.Ghosts[f[0]] = [2]string{f[1], pkg}
+			cur = nil
+		case "immutable":
+			// immutable <Struct> except <pkg-path-prefix>...: no function outside the excepted packages stores
+			// into (or leaks the address of) a field of the struct; checked syntactically over the whole
+			// repository on every run; havocs then leave objects of that type alone
+			f := strings.Fields(rest)
+			if len(f) < 1 {
+				return fail(l.n, "bad immutable declaration")
+			}
+			im := Immutable{Type: f[0], Pkg: pkg}
+			for i := 1; i < len(f); i++ {
+				if f[i] != "except" {
+					im.Except = append(im.Except, f[i])
+				}
+			}
+			db.Immutables = append(db.Immutables, im)
 			cur = nil
 		case "guarded":
 			// guarded <Struct> <mutexField>: f1 f2 ...
